@@ -649,9 +649,13 @@ func NewNodeWith(t testing.TB, o NodeOpts, events types.TransmitEventProvider) *
 	if oc == nil {
 		oc = []byte(`{}`)
 	}
-	p, info, err := fac.NewReportingPlugin(context.Background(), ocr3types.ReportingPluginConfig{
+	// libocr creates an instance under an initialisation context (bounded by MaxDurationInitialization) that ENDS
+	// while the instance lives on: nothing of the instance may hang on that context
+	ictx, icancel := context.WithCancel(context.Background())
+	p, info, err := fac.NewReportingPlugin(ictx, ocr3types.ReportingPluginConfig{
 		ConfigDigest: n.Digest, OracleID: commontypes.OracleID(o.OracleID), N: o.N, F: o.F, OffchainConfig: oc,
 	})
+	icancel()
 	if err != nil {
 		t.Fatalf("NewReportingPlugin: %v", err)
 	}
